@@ -72,8 +72,22 @@ func (b *balModel) afterBlock(h uint64, txs []*pb.BxhTransaction, metas []*txMet
 	if after.Cmp(allowed) > 0 {
 		s.vio("C14", "value-created", "", "block %d: sum of all balances grew from %s to %s (documented admin grants in this block: %s)", h, before, after, grant)
 	}
-	// per transaction accounting is only possible when a block holds a single transaction
+	// ... nor vanishes: "fees leave the sender and reach the admins with at most (number of admins - 1) units of rounding
+	// loss per transaction" - over a block of BitXHub-native transactions the sum drops by no more than that
 	n := int64(s.cfg.World.Admins)
+	native := true
+	for _, mt := range metas {
+		if mt.kind == "eth" {
+			native = false // (an Ethereum-format transaction pays its gas by its own rules)
+		}
+	}
+	if native && s.prop == "C14" {
+		maxLoss := big.NewInt((n - 1) * int64(len(txs)))
+		if lost := new(big.Int).Sub(before, after); lost.Cmp(maxLoss) > 0 {
+			s.vio("C14", "value-destroyed", "", "block %d (%d transactions, %d admins): the sum of all balances dropped from %s to %s, by %s; fee rounding allows at most %s", h, len(txs), n, before, after, lost, maxLoss)
+		}
+	}
+	// per transaction accounting is only possible when a block holds a single transaction
 	price := new(big.Int).SetUint64(s.cfg.World.GasPrice)
 	if len(txs) == 1 && len(ref.Receipts) == 1 && metas[0].kind == "transfer" {
 		tx, rc := txs[0], ref.Receipts[0]
